@@ -3,7 +3,7 @@
    of D1 and D2) with the reused read buffer as explicit state. *)
 From Coq Require Import List NArith ZArith Bool.
 From P9 Require Import Base.Res Base.Bytes Model.WireTypes Model.Spec9P Model.Wire Model.Channel
-  Proofs.WireDecode Proofs.ChannelRead.
+  Proofs.WireDecode Proofs.ChannelRead Proofs.ChannelCompose.
 Import ListNotations.
 Open Scope N_scope.
 
@@ -61,6 +61,16 @@ Theorem C03_tread_clamped : forall msize L body f, 24 <= msize -> msize < M32 ->
     c' <= c /\ 11 + c' <= msize /\ (11 + c <= msize -> c' = c).
 Proof. exact read_tread_clamped. Qed.
 Print Assumptions C03_tread_clamped.
+
+(* 8. Composition with C01 and C02: what one end's WriteFcall emits, the other end's ReadFcall (same
+      msize) delivers as exactly the message that was sent -- the original, or its clamped form for a
+      read/write request -- whatever follows on the stream and whatever the read buffer held. *)
+Theorem C03_write_then_read : forall msize f out buf rest,
+  wf_fcall f = true -> 24 <= msize -> msize < M32 ->
+  write_fcall msize true f = (out, WSent) ->
+  exists f' buf', sent_form msize f = Some f' /\ read_fcall msize buf (out ++ rest) = (RMsg f', buf', rest).
+Proof. exact write_then_read. Qed.
+Print Assumptions C03_write_then_read.
 
 (* witnesses of the repaired defects, and non-vacuity *)
 Example C03_d1_witness :
